@@ -884,6 +884,15 @@ func (g *gen) goStmt(st *State, x *ssa.Go) {
 	// Its preconditions (if it has a contract) are checked here.
 	g.note("go statement: spawned function verified separately, no interleaving semantics")
 	g.effect(st, "go statement", nil)
+	// starting a goroutine is a call site for guard-call clauses (callee: the spawned function's name)
+	switch f := x.Call.Value.(type) {
+	case *ssa.Function:
+		g.checkCallGuards(st, f.Name(), g.lbl(x.Pos(), "go", x.Call.String()), g.argVals(&x.Call))
+	case *ssa.MakeClosure:
+		if fn, ok := f.Fn.(*ssa.Function); ok {
+			g.checkCallGuards(st, fn.Name(), g.lbl(x.Pos(), "go", x.Call.String()), g.argVals(&x.Call))
+		}
+	}
 	if fn, ok := x.Call.Value.(*ssa.Function); ok {
 		if con := g.eng.contracts.byKey[fn.String()]; con != nil {
 			pre := &State{reach: st.reach, heap: st.heap, wm: st.wm}
